@@ -194,6 +194,25 @@ CLAIMED = {
        "(fix: 0414b44 import with SciPy >= 1.17, 3caf352 several pair-gene columns).",
   technique="Coq proof (Reals: Cauchy-Schwarz/Minkowski by list induction; Z lists for groups and components) of a hand model + differential correspondence (vm_compute) + oracles",
   design="§8 C19"),
+ "C12": dict(
+  text="Theorems over the reals about a hand model of the assembly of NMRCalculator.spectrum_1d (coq/model/SpecBody.v on top of the per-(triangle, bin) "
+       "formula shared with C13) and over Z about the flag logic REGENERATED from nmr.py on every run (gen/NmrFlags.v): for any list of triangles (any "
+       "nuclei, transitions, orientation scheme) with non-negative weights and any contiguous bins, every bin is non-negative, bins covering all vertex "
+       "frequencies hold exactly the total weight (flat triangles included), and whenever the line is not identically zero the returned spectrum sums to "
+       "nuclei x bins and is non-negative (intensity_conserved); a single crystal along a unit vector gives the line at n.sigma.n, which lies between the "
+       "extreme principal values, and every bin outside that interval is empty (support); the returned axis is the requested window, ref - sigma when "
+       "referenced, and MHz and ppm windows give the same internal axis up to the factor fixed by the Larmor frequency (axis); for spin below 1 every "
+       "quadrupolar gate is off for ANY effects value, composite flags are the documented unions, the STATIC+MAS combination is refused (flags). Tied to "
+       "the code by the py2v translator, by correspondence of the model (vm_compute on the exact rationals of the floats used) with spectrum_1d on CS "
+       "powder patterns, and by oracles on the real class: sum, sign, support, centre of gravity, Gaussian lines at n.sigma.n, reference, units, Larmor "
+       "bookkeeping, spin-1/2 masking, refusal, for 9 isotopes (spin 1/2..5/2) and 12 flag combinations.",
+  note="Partial: 'centre of gravity at the isotropic value' is a numerical oracle (tolerance 0.2% of the span + half a bin), not a theorem; the Gaussian "
+       "broadening paths and the second-order quadrupolar formulas are not modelled (only sum / sign / unit-independence are judged there). np.isclose(sum, 0) "
+       "is modelled as sum = 0 and float bin edges as contiguous rationals. Known findings C12-F12 (no broadening + single crystal / no orientational effect: "
+       "empty spectrum, warned by the code) and C12-F12c (octant mode with tensors off the Cartesian axes) are replayed each run; F-12b (MHz + broadened "
+       "powder) was found by this check and repaired (fix: 2723a61).",
+  technique="Coq proof (Reals: telescoping tent sums, normalisation, Rayleigh bounds; Z bit-masks over generated definitions) + py2v translator + differential correspondence (vm_compute) + oracles",
+  design="§8 C12"),
  "C18": dict(
   text="Axiom-free theorems about a transition-system model of Submitter._main_loop/_catch_signal/_terminate/_save/_load (coq/model/Submitter.v: one step "
        "per effect point, ghost event trace) over EVERY reachable state, i.e. any interleaving of loop steps, termination requests (at any point, any "
